@@ -564,3 +564,36 @@ CONTRACTS[U + 'stabilizer_postselection'] = dict(
               ('forall_lemma', [('i', '0', 'N')], 'ipow_parity', ['%s[i]' % _H0, '%s[p]' % _H0, 'N'])])])],
     },
 )
+
+# ------------------------------------------------------------------ C07: sequential projection with trace (state overlaps)
+_tr0 = "at('loop0.head', trace)"
+_pt_step = [
+    ('assert', 'implies(no_anti(%s, %s, N + %s, N), r == %s and '
+               'forall(i, 0, 2 * N, same(gs_stb[i], %s[i]) and ps_stb[i] == %s[i]) and '
+               'trace == (%s if OrdP(%s, %s, %s, N, N) == ps_obs[k] else 0))' % (_G0, _obs, _r0, _r0, _G0, _P0, _tr0, _sel0, _G0, _P0)),
+    ('assert', 'implies(not no_anti(%s, %s, N + %s, N), 2 * trace == %s)' % (_G0, _obs, _r0, _tr0)),
+    ('assert', _c06_step[2][1].replace('(ps_obs[k] + 2 * out[k]) % 4', 'ps_obs[k]')),
+    ('assert', _c06_step[3][1].replace('(ps_obs[k] + 2 * out[k]) % 4', 'ps_obs[k]')),
+]
+_m = CONTRACTS[U + 'stabilizer_measure']
+_pt_outer = [c for c in _meas_outer if 'out' not in c]
+_pt_inner = [c for c in _meas_inner if 'len(out)' not in c]
+CONTRACTS[U + 'stabilizer_projection_trace'] = dict(
+    params=_m['params'],
+    requires=_m['requires'],
+    ensures=['inv_state(gs_stb, ps_stb, result[2], cols(gs_obs) // 2)', '0 <= result[2] <= r'],
+    modifies=['gs_stb', 'ps_stb'], returns=('=gs_stb', '=ps_stb', 'int', 'real'),
+    loops={0: dict(var='k', invariant=_pt_outer, locals={'trace': 'real'},
+                   hints_end=_pt_step + [
+                       ('assert_from', 'forall(a, r, N, ps_stb[a] == 0 or ps_stb[a] == 2)',
+                        [h[1] for h in _pt_step] + ['forall(a, %s, N, %s[a] == 0 or %s[a] == 2)' % (_r0, _P0, _P0), 'gram(%s, N)' % _G0,
+                                                    ('forall_lemma', [('i', '0', 'N')], 'ipow_parity', ['%s[i]' % _G0, '%s[%s]' % (_G0, _pv), 'N']),
+                                                    'herms1(ps_obs)', '0 <= k < len(ps_obs)', '0 <= %s < N + %s' % (_pv, _r0),
+                                                    'anti(%s[%s], %s, N)' % (_G0, _pv, _obs)],
+                        [], 'optional'),
+                       ('assert_from', 'forall(a, r, N, ps_stb[a] == 0 or ps_stb[a] == 2)',
+                        [_pt_step[0][1], 'forall(a, %s, N, %s[a] == 0 or %s[a] == 2)' % (_r0, _P0, _P0),
+                         'no_anti(%s, %s, N + %s, N)' % (_G0, _obs, _r0)])]),
+           1: dict(var='jj', invariant=_pt_inner, hints_head=_m['loops'][1]['hints_head'])},
+    hints=_m['hints'],
+)
